@@ -70,6 +70,7 @@ class Resolver:
         self.cfg: CFG = cfg_of(fn)
         self.mod = fn.module
         self._stack: list[Def] = []
+        self.opaque_nodes: dict[int, ast.AST] = {}
 
 
     def _is_namespace(self, dotted_name: str) -> bool:
@@ -217,6 +218,7 @@ class Resolver:
             from .cfg import name_uses
 
             deps = frozenset(self.name_term(n.id, node) for n in name_uses(e))
+            self.opaque_nodes[id(e)] = e
             return ("opaque", type(e).__name__, deps, id(e))
         if isinstance(e, (ast.Yield, ast.YieldFrom, ast.Await)):
             return ("opaque", type(e).__name__, frozenset(), id(e))
